@@ -60,7 +60,10 @@ def conduit_rules(ctx, c, cfg):
 
     with ctx.rule("C12.R1" + sfx, "T3", "every mutation of Conduit.data / closed is followed by Conduit::wake on every path", floor=3) as r:
         n = 0
-        for b in c.fns(self_adt=COND):
+        # (the Conduit's own methods, and any other function of the crate that reaches into the locked Conduit - `self.inner.lock().closed = true`)
+        own = list(c.fns(self_adt=COND))
+        outside = [b for b in c.all_bodies() if b not in own and "::tests" not in b.defpath and (field_writes(b, COND, "closed") or field_writes(b, COND, "data"))]
+        for b in own + outside:
             ctx.saw(b)
             wakes = {x.block for x in b.calls if x.is_method(COND, "wake") or x.is_method(COND, "close_channel") or x.is_method(COND, "read") or x.is_method(COND, "write")}
             if b.meta.get("name") == "wake":
@@ -84,7 +87,8 @@ def conduit_rules(ctx, c, cfg):
                 # wake() itself, or a local helper that calls wake() on every path (interprocedural must-summary)
                 direct = prog.blocks_must_calling(b, lambda x: x.is_method(COND, "wake"), depth=ctx.depth)
                 ok, wit = must_follow(b, blk, direct)
-                r.check(ok, "%s/%s=>wake" % (b.meta.get("name"), what.split(" ")[0]), b.loc(line),
+                fnm = b.meta.get("name") if b in own else "%s::%s" % ((b.meta.get("self_adt") or "?").split("::")[-1], b.meta.get("name"))
+                r.check(ok, "%s/%s=>wake" % (fnm, what.split(" ")[0]), b.loc(line),
                         "%s is followed by self.wake() on every path to return" % what,
                         "%s can reach return without wake(): blocks %s — a waiting peer is never woken" % (what, wit))
         wake = ctx.saw(c.fn(name="wake", self_adt=COND))
